@@ -3465,3 +3465,31 @@ Proof.
   destruct (hmmer_dropped_has_better_kept limit cutoffs hits out H Hp x Hx Hn) as [k [Hk [Hc Hr]]].
   apply existsb_exists. exists k. split; [exact Hk|]. rewrite Hc, Hr. reflexivity.
 Qed.
+
+
+(* ---------- find_hmmer_hits: competition of equivalent profiles first, then the best hit of each profile ---------- *)
+Lemma find_hits_filters_spec eqgs results by_id r :
+  filter_results eqgs results by_id = Ok r ->
+  exists out, find_hits_filters eqgs results by_id = Ok out /\
+    snd out = map (fun g => frm_cds (map to_mhit g)) (snd r) /\
+    forall g, In g (snd r) ->
+      (forall h, In h (frm_cds (map to_mhit g)) ->
+         In h (map to_mhit g) /\ -2 < m_sc h /\
+         forall h', In h' (map to_mhit g) -> m_prof h' = m_prof h -> m_sc h' <= m_sc h) /\
+      (forall h', In h' (map to_mhit g) -> -2 < m_sc h' -> exists h, In h (frm_cds (map to_mhit g)) /\ m_prof h = m_prof h').
+Proof.
+  intros E. unfold find_hits_filters. rewrite E. cbn [bind]. eexists. split; [reflexivity|]. split.
+  - unfold filter_result_multiple. cbn [snd]. rewrite map_map. reflexivity.
+  - intros g _. apply frm_cds_spec.
+Qed.
+
+(* the other order loses a profile: Q (1) wins the first domain against P (0), P wins the second one, Q scores higher on
+   the second domain than on the first *)
+Lemma find_hits_filters_swapped_differs : exists eqgs results by_id out,
+  find_hits_filters eqgs results by_id = Ok out /\ map (map m_id) (snd out) = [[0; 3]] /\
+  find_hits_filters_swapped eqgs results by_id = Ok ([3], [[3]]).
+Proof.
+  exists [[0; 1]], [mkFH 0 1 0 100 100 0; mkFH 1 0 0 100 80 1; mkFH 2 1 200 300 120 2; mkFH 3 0 200 300 160 3],
+         [[mkFH 0 1 0 100 100 0; mkFH 1 0 0 100 80 1; mkFH 2 1 200 300 120 2; mkFH 3 0 200 300 160 3]].
+  eexists. split; [vm_compute; reflexivity|]. split; vm_compute; reflexivity.
+Qed.
